@@ -254,3 +254,19 @@ Proof. intros x. apply sub_NoDup_hist. Qed.
 (* in particular when every sub-query passed to the statement is fresh (carries no alias yet) *)
 Corollary fresh_subqueries_NoDup : forall x, given_sub_names x = [] -> NoDup (subquery_names x).
 Proof. intros x H. apply subquery_names_NoDup; rewrite H; [constructor | reflexivity]. Qed.
+
+(* all names the builder makes up (sq<d> and name2) are distinct when no table is re-joined twice and no table is
+   called "sq..." *)
+Lemma NoDup_app_disjoint {A} (a b : list A) : NoDup a -> NoDup b -> (forall x, In x a -> In x b -> False) -> NoDup (a ++ b).
+Proof.
+  induction a as [|x r IH]; intros Ha Hb D; [exact Hb|]. inversion Ha; subst. cbn. constructor.
+  - intros Hin. apply in_app_or in Hin as [H|H]; [contradiction|]. apply (D x); [left; reflexivity | exact H].
+  - apply IH; auto. intros y Hy. apply D. right. exact Hy.
+Qed.
+Theorem builder_names_NoDup : forall x,
+  NoDup (name2_names x) -> forallb (fun s => negb (sq_prefixed s)) (name2_names x) = true -> NoDup (builder_names x).
+Proof.
+  intros x HN HP. unfold builder_names. apply NoDup_app_disjoint; [apply invented_NoDup | exact HN |].
+  intros s Hi Hn. apply invented_prefixed in Hi. rewrite forallb_forall in HP. specialize (HP _ Hn).
+  rewrite Hi in HP. discriminate HP.
+Qed.
